@@ -1,6 +1,6 @@
 // Parameter-set generators of the C02 "api" leg (AVC/HEVC SPS/PPS/VPS serialised by nalgen), copied from the
 // C19 generators: only legal parameter sets are produced, so that SetAVCDescriptor / SetHEVCDescriptor accept them.
-package c02
+package apigen
 
 import (
 	"fmt"
